@@ -815,8 +815,10 @@ def value_transformer_site(ctx, top_fq='petl.transform.conversions:iterfieldconv
     top = ctx.project.need_fn(top_fq)
 
     def has_policy_handler(f):
+        # (a handler with a decision ladder inside; which exceptions it catches is judged by the rule, not here)
         for n in own_nodes(f.node):
-            if isinstance(n, ast.Try) and any(handler_types(h) & {'Exception', 'BaseException'} for h in n.handlers):
+            if isinstance(n, ast.Try) and any(any(isinstance(x, ast.If) for b in h.body for x in ast.walk(b)) or
+                                              handler_types(h) & {'Exception', 'BaseException'} for h in n.handlers):
                 return True
         return False
     # nested functions first
